@@ -53,17 +53,18 @@ where
         if self.q_vals.len() < 2 {
             return;
         }
-        let mut x: Vec<T> = vec![T::zero(); self.q_vals.len()];
-        let mut y: Vec<T> = vec![T::zero(); self.q_vals.len()];
-        for count in 1..self.q_vals.len() {
-            x[count] = *self.q_vals.get(self.q_vals.len() - count).unwrap();
-            y[count] = -T::from(count).expect("can convert");
-        }
-
+        // Kendall correlation of the values with time: every pair of values in the window counts,
+        // ties contribute nothing.
         let mut num = T::zero();
-        for count in 2..self.q_vals.len() {
-            for k in 1..count - 1 {
-                num = num - ((x[count] - x[k]).signum());
+        for i in 1..self.q_vals.len() {
+            for k in 0..i {
+                let newer = *self.q_vals.get(i).unwrap();
+                let older = *self.q_vals.get(k).unwrap();
+                if newer > older {
+                    num = num + T::one();
+                } else if newer < older {
+                    num = num - T::one();
+                }
             }
         }
 
